@@ -417,7 +417,14 @@ def widen(jobs, tier):
 WIDEN_SKIP = set()
 
 
+# properties whose whole node-method job list costs about a minute on 16 cores: the quick tier runs the thorough list (shapes and classes the
+# reduced quick lists left out were exactly where seeded changes slipped through: C10_G, C14_H, C06_H)
+FULL_IN_QUICK = ('C04', 'C07', 'C08', 'C10', 'C17')
+
+
 def jobs_for(prop, tier):
+    if prop in FULL_IN_QUICK:
+        tier = 'thorough'
     return widen(_jobs_for(prop, tier), tier)
 
 
